@@ -165,7 +165,7 @@ def register(R, tier="quick"):
                                  z3.And(z3.Not(o_none(s["_minlength"])),
                                         o_val(s["_minlength"]) == z3.If(bm.val < o_val(s0["_minlength"]), bm.val, o_val(s0["_minlength"])))))
 
-    R.contract(W3 + ":W3TermInfo.add_block", props=["C10", "C12"],
+    R.contract(W3 + ":W3TermInfo.add_block", props=["C10", "C12", "C06", "C05"],
                setup=lambda I: {"self": mk_terminfo(I, (W3, "W3TermInfo"), {"_offset": None, "_length": None, "_inlined": None}),
                                 "block": Block(I)},
                requires=[lambda I, env: z3.Implies(z3.Not(o_none(env["self"].fields["_minlength"])),
